@@ -3,7 +3,7 @@
    positive and Byte.byte stay the extracted inductive types. *)
 Require Extraction.
 Require Import ExtrOcamlBasic.
-From JP Require Import Bytes Json Text Strings Scan Den Pointer Rfc6902 Rfc7396 ImplV5 ImplMerge Domain ImplV4.
+From JP Require Import Bytes Json Text Strings Scan Den Pointer Rfc6902 Rfc7396 ImplV5 ImplMerge Domain ImplV4 Cli.
 From JP.gen Require Import ScannerGen.
 Extraction Language OCaml.
 Set Extraction Optimize.
@@ -16,5 +16,6 @@ Extraction "model.ml"
   Domain.den_op Domain.in_domain_C01 Domain.root_container Domain.dialect_of Domain.c14_path_ok
   Domain.canonical_spelling Domain.pointer_ok
   ImplV4.api_apply4 ImplV4.api_decode4 ImplV4.api_merge4 ImplV4.api_equal4 ImplV4.mkOpts4
+  Cli.cli_run
   Scan.valid_gen Scan.compact_go Scan.indent_go
   ScannerGen.scanner_reset ScannerGen.step_fn ScannerGen.scanner_eof ScannerGen.mkScanner.
